@@ -907,6 +907,11 @@ func (v *fnVC) rangeInit(i *ssa.Range, st *State) {
 		// no key has been yielded yet
 		ks := v.e.sortOf(mt.Key())
 		st.set(visitedHeap(i), mk(fmt.Sprintf("((as const %s) false)", arrSort(ks, sBool).SMT()), arrSort(ks, sBool)))
+		if v.rangeHas == nil {
+			v.rangeHas = map[*ssa.Range]string{}
+		}
+		vs := v.e.sortOf(mt.Elem())
+		v.rangeHas[i] = st.get(mapHeap(ks, vs, "has"), arrSort(sRef, arrSort(ks, sBool))).S
 	}
 }
 
@@ -945,6 +950,14 @@ func (v *fnVC) next(i *ssa.Next, st *State) {
 	vs := arrSort(k.Sort, sBool)
 	vis := st.get(visitedHeap(rng), vs)
 	e.assume(tImp(ok, mk(sapp("not", sapp("select", vis.S, k.S)), sBool)))
+	// As long as no map of this type has been written since the range began, every yielded
+	// key is still a key of the map.
+	if hs := st.get(mapHeap(k.Sort, e.sortOf(mt.Elem()), "has"), arrSort(sRef, arrSort(k.Sort, sBool))).S; hs == v.rangeHas[rng] {
+		e.fresh++
+		qs := fmt.Sprintf("q$vs!%d", e.fresh)
+		qst := mk(qs, k.Sort).withGo(mt.Key())
+		e.assume(mk(fmt.Sprintf("(forall ((%s %s)) (! (=> (select %s %s) %s) :pattern ((select %s %s))))", qs, k.Sort.SMT(), vis.S, qs, mapHas(e, st, x, qst, mt).S, vis.S, qs), sBool))
+	}
 	e.fresh++
 	qk := fmt.Sprintf("q$vk!%d", e.fresh)
 	qt := mk(qk, k.Sort).withGo(mt.Key())
